@@ -1,7 +1,24 @@
 package main
 
+// C12 - protocol selection and TLS configuration are honoured uniformly.
+//
+// Real handshakes against local origins (see servers.go); cells = operation sequences on a fresh req.C()
+// (see cells.go).  Generator: (a) the structured matrix {force none/h1/h2/h3} x {HTTP/3 enabled or not} x
+// server {ALPN h1 only, h2+h1, h1+h2} x {no h3, h3 via Alt-Svc, h3 direct} x {client certificate required or
+// not} x TLS setting {default roots, private root, wrong root, InsecureSkipVerify, ServerName override good/bad,
+// client certificate good/wrong} x lifecycle {fresh, clone, configure-after-clone, settings changed after
+// first use} x setter {SetTLSClientConfig with/without NextProtos, GetTLSClientConfig mutation}; plain-http
+// cells {force} x {h2c on/off, on-then-off, cloned} x {plain h1, h2c origin}; (b) seeded random walks over the
+// operation alphabet.  Quick tier: a seeded sample; thorough: the whole matrix.
+
 import (
+	"encoding/json"
+	"fmt"
 	"os"
+	"sort"
+	"strings"
+	"sync"
+	"time"
 
 	"github.com/imroc/req/v3/verifharness/hk"
 )
@@ -14,6 +31,414 @@ func main() {
 	hk.Main("C12", run, syncers)
 }
 
-var syncers = map[string]hk.Gosyncer{}
+// ---------- TLS settings ----------
 
-func run(r *hk.Run) {}
+type tlsSetting struct {
+	Name string
+	T    tlsSpec
+}
+
+var tlsSettings = []tlsSetting{
+	{"default", tlsSpec{}},
+	{"root", tlsSpec{Roots: []int{1}}},
+	{"wrongroot", tlsSpec{Roots: []int{2}}},
+	{"skip", tlsSpec{Skip: true}},
+	{"sname-ok", tlsSpec{Roots: []int{1}, SName: "c12.test"}},
+	{"sname-bad", tlsSpec{Roots: []int{1}, SName: "other.test"}},
+	{"cert", tlsSpec{Roots: []int{1}, Certs: []int{3}}},
+	{"wrongcert", tlsSpec{Roots: []int{1}, Certs: []int{2}}},
+	{"skip-cert", tlsSpec{Skip: true, Certs: []int{2, 3}}},
+}
+
+// ops that bring a client from setting `from` (nil = untouched) to setting `to`
+// setter: "mut" (GetTLSClientConfig mutation through the client's helpers), "set" (SetTLSClientConfig with a
+// config that has no NextProtos), "set-np" (SetTLSClientConfig with NextProtos h2, http/1.1)
+func tlsOps(setter string, to tlsSpec, from *tlsSpec) []op {
+	switch setter {
+	case "set", "set-np":
+		t := to
+		if setter == "set-np" {
+			t.Next = []string{"h2", "http/1.1"}
+		}
+		return []op{{K: "settls", TLS: &t}}
+	}
+	var out []op
+	mutable := from == nil
+	if from != nil {
+		// mutation can only add roots / certs: otherwise start again from a nil config
+		mutable = isPrefix(from.Roots, to.Roots) && isPrefix(from.Certs, to.Certs)
+		if !mutable {
+			out = append(out, op{K: "settls", TLS: &tlsSpec{Nil: true}})
+			from = nil
+		}
+	}
+	var f tlsSpec
+	if from != nil {
+		f = *from
+	}
+	for _, r := range to.Roots[len(f.Roots):] {
+		out = append(out, op{K: "root", N: r})
+	}
+	for _, k := range to.Certs[len(f.Certs):] {
+		out = append(out, op{K: "cert", N: k})
+	}
+	if to.Skip != f.Skip {
+		out = append(out, op{K: "skip", B: to.Skip})
+	}
+	if to.SName != f.SName {
+		out = append(out, op{K: "sname", S: to.SName})
+	}
+	return out
+}
+
+func isPrefix(a, b []int) bool {
+	if len(a) > len(b) {
+		return false
+	}
+	for i := range a {
+		if a[i] != b[i] {
+			return false
+		}
+	}
+	return true
+}
+
+func protoOps(force int, h3 bool, h3First bool) []op {
+	var out []op
+	if h3 && h3First {
+		out = append(out, op{K: "h3"})
+	}
+	if force != 0 {
+		out = append(out, op{K: "force", N: force})
+	}
+	if h3 && !h3First {
+		out = append(out, op{K: "h3"})
+	}
+	return out
+}
+
+func reqs(n int) []op {
+	var out []op
+	for i := 0; i < n; i++ {
+		out = append(out, op{K: "req"})
+	}
+	return out
+}
+
+func cat(xs ...[]op) []op {
+	var out []op
+	for _, x := range xs {
+		out = append(out, x...)
+	}
+	return out
+}
+
+// the structured matrix
+func matrix(specs []srvSpec) []cell {
+	var cells []cell
+	for _, sp := range specs {
+		if !sp.HTTPS {
+			continue
+		}
+		for force := 0; force <= 3; force++ {
+			for _, h3 := range []bool{false, true} {
+				if force == 3 && !h3 {
+					continue // EnableForceHTTP3 enables HTTP/3 itself
+				}
+				for si, ts := range tlsSettings {
+					needsCertSrv := len(ts.T.Certs) > 0
+					if needsCertSrv != sp.NeedCert && !(sp.NeedCert && ts.Name == "root") {
+						continue
+					}
+					for _, setter := range []string{"mut", "set", "set-np"} {
+						for _, life := range []string{"fresh", "clone", "clone-then-config", "changed"} {
+							po := protoOps(force, h3 && force != 3, (si+force)%2 == 0)
+							var ops []op
+							switch life {
+							case "fresh":
+								ops = cat(tlsOps(setter, ts.T, nil), po, reqs(3))
+							case "clone":
+								ops = cat(tlsOps(setter, ts.T, nil), po, []op{{K: "clone"}}, reqs(3))
+							case "clone-then-config":
+								ops = cat(po, reqs(1), []op{{K: "clone"}}, tlsOps(setter, ts.T, nil), reqs(2))
+							case "changed":
+								// start from another setting, use the client, then move to the target setting
+								other := tlsSettings[(si+1+force)%len(tlsSettings)]
+								ops = cat(tlsOps(setter, other.T, nil), po, reqs(2), tlsOps(setter, ts.T, &other.T),
+									reqs(1), []op{{K: "closeidle"}}, reqs(2))
+							}
+							cells = append(cells, cell{
+								Shape: fmt.Sprintf("f%d-h3%v-%s-%s-%s", force, h3, ts.Name, setter, life),
+								Spec:  sp, Ops: ops})
+						}
+					}
+				}
+			}
+		}
+	}
+	// plain http
+	for _, sp := range specs {
+		if sp.HTTPS {
+			continue
+		}
+		for force := 0; force <= 3; force++ {
+			for _, h3 := range []bool{false, true} {
+				if force == 3 && !h3 {
+					continue
+				}
+				for _, h2c := range []string{"off", "on", "on-off", "on-clone"} {
+					var pre []op
+					switch h2c {
+					case "on":
+						pre = []op{{K: "h2c", B: true}}
+					case "on-off":
+						pre = []op{{K: "h2c", B: true}, {K: "h2c", B: false}}
+					case "on-clone":
+						pre = []op{{K: "h2c", B: true}}
+					}
+					ops := cat(pre, protoOps(force, h3 && force != 3, true))
+					if h2c == "on-clone" {
+						ops = cat(ops, reqs(1), []op{{K: "clone"}})
+					}
+					ops = cat(ops, reqs(3))
+					cells = append(cells, cell{Shape: fmt.Sprintf("plain-f%d-h3%v-h2c-%s", force, h3, h2c), Spec: sp, Ops: ops})
+				}
+			}
+		}
+	}
+	return cells
+}
+
+// seeded random walks over the operation alphabet
+func randomWalk(rng *hk.Rand, specs []srvSpec) cell {
+	sp := hk.Pick(rng, specs)
+	n := rng.Range(5, 12)
+	var ops []op
+	// start from a setting that is likely to be accepted so that the walk gets somewhere
+	if sp.HTTPS && rng.Chance(75) {
+		ts := hk.Pick(rng, []tlsSetting{tlsSettings[1], tlsSettings[3], tlsSettings[6], tlsSettings[8]})
+		ops = append(ops, tlsOps(hk.Pick(rng, []string{"mut", "set", "set-np"}), ts.T, nil)...)
+	}
+	for i := 0; i < n; i++ {
+		switch k := rng.Intn(20); {
+		case k < 8:
+			ops = append(ops, op{K: "req"})
+		case k < 11:
+			ops = append(ops, op{K: "force", N: rng.Intn(4)})
+		case k < 12:
+			ops = append(ops, op{K: "h3"})
+		case k < 13:
+			ops = append(ops, op{K: "clone"})
+		case k < 14:
+			ops = append(ops, op{K: "closeidle"})
+		case k < 15:
+			ops = append(ops, op{K: "skip", B: rng.Bool()})
+		case k < 16:
+			ops = append(ops, op{K: "root", N: rng.Range(1, 2)})
+		case k < 17:
+			ops = append(ops, op{K: "cert", N: rng.Range(2, 3)})
+		case k < 18:
+			ops = append(ops, op{K: "sname", S: hk.Pick(rng, []string{"", "c12.test", "other.test", "localhost"})})
+		case k < 19:
+			ts := hk.Pick(rng, tlsSettings)
+			ops = append(ops, tlsOps(hk.Pick(rng, []string{"set", "set-np"}), ts.T, nil)...)
+		default:
+			if !sp.HTTPS {
+				ops = append(ops, op{K: "h2c", B: rng.Bool()})
+			} else {
+				ops = append(ops, op{K: "req"})
+			}
+		}
+	}
+	ops = append(ops, op{K: "req"})
+	return cell{Shape: "walk", Spec: sp, Ops: ops}
+}
+
+func slowCell(c cell) bool {
+	// QUIC dials to a port nobody listens on only end by timeout
+	if c.Spec.H3 {
+		return false
+	}
+	if c.Spec.AltSvc {
+		return true
+	}
+	for _, o := range c.Ops {
+		if o.K == "force" && o.N == 3 {
+			return true
+		}
+	}
+	return false
+}
+
+func run(r *hk.Run) {
+	r.Header = "From ReqV Require Import Model.C12Run.\nImport ListNotations."
+	r.CaseType = "c12_case"
+	r.CheckFn = "c12_check"
+	r.ShardSize = 250
+	r.Rule = "cells = operation sequences (TLS setters, force/enable switches, clone, CloseIdleConnections, GETs) on a fresh req.C() against local TLS/QUIC/plain origins with an in-process PKI; structured matrix (sampled in the quick tier) + seeded random walks. Non-trivial: at least one real TLS or QUIC ClientHello reached a listener during the cell (plain-http cells: at least one request completed). Distinct by (server, operation sequence)."
+	rng := hk.NewRand(r.Seed)
+	p, err := newPKI()
+	if err != nil {
+		r.Fail(hk.Failure{Sig: "harness-pki", What: err.Error()})
+		return
+	}
+	specs := allSpecs()
+	var fastSpecs []srvSpec
+	for _, s := range specs {
+		if s.H3 || !s.AltSvc {
+			fastSpecs = append(fastSpecs, s)
+		}
+	}
+
+	var cells []cell
+	if r.Replay != "" {
+		b, err := os.ReadFile(r.Replay)
+		if err == nil {
+			var rp struct {
+				FailingInputs []struct {
+					Input cell `json:"input"`
+				} `json:"failing_inputs"`
+				ModelMismatches []struct {
+					Input struct {
+						Input cell `json:"input"`
+					} `json:"input"`
+				} `json:"model_mismatches"`
+			}
+			if json.Unmarshal(b, &rp) == nil {
+				for _, f := range rp.FailingInputs {
+					if len(f.Input.Ops) > 0 {
+						cells = append(cells, f.Input)
+					}
+				}
+				for _, f := range rp.ModelMismatches {
+					if len(f.Input.Input.Ops) > 0 {
+						cells = append(cells, f.Input.Input)
+					}
+				}
+			}
+		}
+	}
+	if len(cells) == 0 {
+		all := matrix(specs)
+		var fast, slow []cell
+		for _, c := range all {
+			if slowCell(c) {
+				slow = append(slow, c)
+			} else {
+				fast = append(fast, c)
+			}
+		}
+		r.Notes = append(r.Notes, fmt.Sprintf("matrix: %d cells (%d need a QUIC dial timeout)", len(all), len(slow)))
+		if r.Quick() {
+			// seeded sample: every (force, server) pair keeps at least a few cells
+			nFast, nSlow := 420, 3
+			for i := 0; i < nFast; i++ {
+				cells = append(cells, fast[rng.Intn(len(fast))])
+			}
+			for i := 0; i < nSlow; i++ {
+				cells = append(cells, slow[rng.Intn(len(slow))])
+			}
+			for i := 0; i < 160; i++ {
+				cells = append(cells, randomWalk(rng, fastSpecs))
+			}
+		} else {
+			cells = append(cells, fast...)
+			for i := 0; i < 60; i++ {
+				cells = append(cells, slow[rng.Intn(len(slow))])
+			}
+			for i := 0; i < 3000; i++ {
+				cells = append(cells, randomWalk(rng, fastSpecs))
+			}
+			for i := 0; i < 20; i++ {
+				cells = append(cells, randomWalk(rng, specs))
+			}
+		}
+	}
+
+	// workers, each with its own origins (hello logs are per origin, cells on one origin are sequential)
+	const workers = 4
+	results := make([]cellResult, len(cells))
+	var wg sync.WaitGroup
+	var startErr error
+	var mu sync.Mutex
+	for w := 0; w < workers; w++ {
+		wg.Add(1)
+		go func(w int) {
+			defer wg.Done()
+			origins := map[string]*origin{}
+			defer func() {
+				for _, o := range origins {
+					o.close()
+				}
+			}()
+			for i := w; i < len(cells); i += workers {
+				cl := cells[i]
+				o := origins[cl.Spec.Name]
+				if o == nil {
+					var err error
+					o, err = startOrigin(p, cl.Spec)
+					if err != nil {
+						mu.Lock()
+						startErr = err
+						mu.Unlock()
+						return
+					}
+					origins[cl.Spec.Name] = o
+				}
+				timeout := 8 * time.Second
+				if slowCell(cl) {
+					timeout = 2500 * time.Millisecond
+				}
+				var res cellResult
+				for attempt := 0; attempt < 3; attempt++ {
+					res = runCell(p, o, cl, timeout)
+					if !res.Unstable {
+						break
+					}
+				}
+				results[i] = res
+			}
+		}(w)
+	}
+	wg.Wait()
+	if startErr != nil {
+		r.Fail(hk.Failure{Sig: "harness-origin", What: startErr.Error()})
+		return
+	}
+
+	seenSig := map[string]bool{}
+	kindCount := map[string]int{}
+	for i, cl := range cells {
+		res := results[i]
+		key, _ := json.Marshal(cl)
+		nontrivial := res.Dials > 0
+		if !cl.Spec.HTTPS {
+			for _, o := range res.Obs {
+				if o.Outcome == "V1" || o.Outcome == "V2" {
+					nontrivial = true
+				}
+			}
+		}
+		desc := map[string]interface{}{"input": cl, "observed": res.Obs}
+		r.Add(hk.Case{Coq: coqCase(cl, res.Obs), Desc: desc}, string(key), nontrivial)
+		r.Count("server:" + cl.Spec.Name)
+		for _, o := range res.Obs {
+			if o.Kind == "req" {
+				r.Count("outcome:" + o.Outcome)
+			}
+		}
+		if res.Unstable {
+			r.Count("unstable-error-after-3-attempts")
+		}
+		sort.SliceStable(res.Viol, func(a, b int) bool { return res.Viol[a].At < res.Viol[b].At })
+		for _, v := range res.Viol {
+			kind := strings.SplitN(v.Sig, "/", 2)[0]
+			if seenSig[v.Sig] || kindCount[kind] >= 4 {
+				continue
+			}
+			seenSig[v.Sig] = true
+			kindCount[kind]++
+			r.Fail(hk.Failure{Sig: v.Sig, What: v.What, Input: cl, Got: res.Obs})
+		}
+	}
+}
